@@ -1,4 +1,5 @@
 """C18 - files and handles (C18.R1-R6)."""
+import re
 from .. import mir
 from ..core import CheckError
 from . import common
@@ -825,6 +826,60 @@ def r16_records_hold_one_byte_per_character(ctx, rule="C18.R16"):
     ctx.require(rule, 4)
 
 
+def r17_record_number_has_the_long_range(ctx, rule="C18.R17"):
+    """`a record PUT to a RANDOM file is what GET of the same record number returns`: for every record number the
+    language has - a LONG, not an INTEGER.  The value that PUT / GET hand to FileInfo::put_record / get_record as the
+    record number is followed back to the conversion that made it from the argument; every numeric cast that
+    conversion performs (through the helpers of its file) is the cast to the 64-bit carrier with the LONG range
+    test (`QBNumberCast<i64>`): the INTEGER cast (`<i32>`) refuses record 32768 with Overflow."""
+    prog = ctx.prog
+    n = 0
+    for f in sorted(prog.fns.values(), key=lambda f: f.id):
+        if f.crate != "rusty_basic" or "::interpreter::built_ins::" not in f.id or f.body is None:
+            continue
+        pv = mir.Prov(f.body)
+        for b, t in f.body.calls():
+            cname = mir.callee_path(t).split("::")[-1]
+            if cname not in ("get_record", "put_record") or len(t["args"]) < 2:
+                continue
+            g = prog.fns.get(mir.callee_of(t))
+            if g is None or "::interpreter::io::" not in g.id:
+                continue
+            n += 1
+            owner = (prog.enclosing_fn(f) or f)
+            key = "%s:%s:%s" % (rule, owner.path.split("::")[-2], cname)
+            convs = []
+            mir.origin_mentions(pv.of_operand(t["args"][1]),
+                                lambda x: convs.append(x) or False if x[0] == "call" and "variant_casts" in x[1] else False)
+            if not convs:
+                ctx.unknown(rule, key, f.loc, "the record number of %s is not made by a conversion of variant_casts (%s)"
+                            % (cname, mir.short_origin(pv.of_operand(t["args"][1]))[:100]))
+                continue
+            casts = []
+            seen = set()
+            work = [x for c in convs for x in prog.fns.values() if x.path == c[1] or x.id == c[1]]
+            while work:
+                h = work.pop()
+                if h.id in seen or h.body is None:
+                    continue
+                seen.add(h.id)
+                for b2, t2 in h.body.calls():
+                    rp = t2.get("rpath") or ""
+                    m = re.search(r"QBNumberCast<(\w+)>>::try_cast", rp)
+                    if m:
+                        casts.append((h.name, m.group(1)))
+                    c2 = prog.fns.get(mir.callee_of(t2))
+                    if c2 is not None and c2.file == h.file:
+                        work.append(c2)
+            narrow = sorted({"%s in %s" % (ty, nm) for nm, ty in casts if ty != "i64"})
+            ctx.decide(bool(casts) and not narrow, rule, key, f.loc,
+                       "the record number is cast with %s" % sorted({ty for _n, ty in casts}),
+                       "the record number of %s is converted with %s: the INTEGER range test refuses record numbers above "
+                       "32767 (Overflow) although record numbers are LONGs - `PUT #1, 40000` / `GET #1, 40000` fail"
+                       % (cname, ", ".join(narrow) or "no numeric cast this rule can see"))
+    ctx.require(rule, 2)
+
+
 def run(ctx):
     common.install(ctx)
     r1_open_guard(ctx)
@@ -844,3 +899,4 @@ def run(ctx):
     r14_field_list_fits_the_record(ctx)
     r15_variadic_builtins_handle_every_argument(ctx)
     r16_records_hold_one_byte_per_character(ctx)
+    r17_record_number_has_the_long_range(ctx)
